@@ -484,7 +484,7 @@ def run_covers(c, prefix, timeout_ms=None, only=None):
     return out
 
 
-def run_covers_native(c, prefix, names, cycles, seed=0, tries=3, zero_first=True):
+def run_covers_native(c, prefix, names, cycles, seed=0, tries=4, zero_first=True):
     """existential covers witnessed on the real module by native simulation (all-zero inputs first, then random)"""
     import random as _r
     out = []
@@ -500,8 +500,10 @@ def run_covers_native(c, prefix, names, cycles, seed=0, tries=3, zero_first=True
             for i, s_ in enumerate(c.free_list):
                 if attempt == 0 and zero_first:
                     v = 0
+                elif attempt == 1 and s_.nbits == 1:
+                    v = 1
                 elif s_.nbits == 1:
-                    v = 1 if rnd.random() < (0.5 if attempt == 1 else 0.15) else 0
+                    v = 1 if rnd.random() < (0.5 if attempt == 2 else 0.15) else 0
                 else:
                     v = rnd.getrandbits(s_.nbits) if rnd.random() < 0.5 else rnd.getrandbits(2) & ((1 << s_.nbits) - 1)
                 ins["%d:%s" % (i, signame_nodu(s_))] = v
@@ -890,3 +892,19 @@ def replay_window_native(c, trace, goal, wdepth, start):
             subs.append((cst, ghist[t][nm]))
     r = z3.simplify(z3.substitute(e, *subs))
     return {"violated": z3.is_false(r), "undetermined": not (z3.is_true(r) or z3.is_false(r)), "assume_fail": assume_fail}
+
+
+def boot_prefix(make_contract, regs_of, idle_fn, max_steps=2000):
+    """Deterministic start-up prefix: simulate a fresh instance natively from reset (all inputs 0) until idle_fn(sim, c) holds;
+    returns the list of per-cycle value tuples of regs_of(c) (index-aligned with regs_of of any other instance)."""
+    c = make_contract()
+    sim = NativeSim(c)
+    sim.set_inputs({s: 0 for s in c.free_list})
+    regs = regs_of(c)
+    seq = []
+    for t in range(max_steps):
+        seq.append(tuple(sim.get(r) for r in regs))
+        if idle_fn(sim, c):
+            return seq
+        sim.step(None, {s: 0 for s in c.free_list})
+    raise RuntimeError("start-up prefix did not end within %d cycles" % max_steps)
